@@ -81,7 +81,7 @@ Qed.
 Theorem pi_parts_W (q : str) : okstr q -> (exists r, q = SLASH :: r) -> pi_parts Windows (WC q) = pi_parts Linux q.
 Proof.
   intros Hq Hr. unfold pi_parts. apply pi_parts_f_rel.
-  - apply pi_new_R0; [exact DRIVE_C_letter|exact Hq|exact Hr].
+  - apply pi_new_R0; [exact Hq|exact Hr].
   - cbn [pi_new pi_path pi_end volume_name_len]. lia.
   - cbn [pi_new pi_path pi_end volume_name_len]. rewrite (length_W DRIVE_C). lia.
 Qed.
